@@ -639,12 +639,12 @@ def r05_7(cx):
             at_b = by_cstr({'%s.count' % who: cnt, '%s.available' % who: avail})
             selb = [r for r in brows if r.end != 'diverge' and row_consistent(r, at_b)]
             return bool(selb) and all(is_agg(r.ret, r'Option$', 'None') and not any(e[0] == 'loop' for e in r.effects) and not r.calls(r'Arc::new$') for r in selb)
-        for c in range(0, 7):
-            at_a = by_cstr({'self.count': c, 'self.available': 1, 'core::slice::len(%s)' % BY: 5,
+        for c, L in [(c, L) for c in range(0, 7) for L in (5, 255, 256, 300, 70000)]:
+            at_a = by_cstr({'self.count': c, 'self.available': 1, 'core::slice::len(%s)' % BY: L,
                             'discr(core::slice::first(%s))' % BY: 1, 'core::slice::is_empty(%s)' % BY: 0})
             sel = [r for r in arows if r.end != 'diverge' and row_consistent(r, at_a)]
             if not sel:
-                why = 'no path of add() for count = %d' % c
+                why = 'no path of add() for count = %d, pattern length %d' % (c, L)
                 break
             for r in sel:
                 if r.calls(rec_pat) or any(e[0] == 'loop' for e in r.effects):
@@ -658,11 +658,11 @@ def r05_7(cx):
                         except (Unsupported, EvalPanic):
                             avail = 1
                 if not rejects(c, avail):
-                    why = 'at count = %d add() no longer records the pattern\'s bytes, but build() still accepts the state it leaves: the prefilter is built from an incomplete byte set' % c
+                    why = 'at count = %d, pattern length %d add() does not record the pattern\'s bytes, but build() still accepts the state it leaves: the prefilter is built from an incomplete byte set' % (c, L)
                     break
             if why:
                 break
-        cx.report('R05.7', a, 'count-cap', why is None, '%s::add stops recording only at counts that build() rejects (tabulated for counts 0..6)' % nm if why is None else '%s: %s' % (nm, why))
+        cx.report('R05.7', a, 'count-cap', why is None, '%s::add skips a pattern only in a state that build() rejects (tabulated for counts 0..6 x pattern lengths 5, 255, 256, 300, 70000)' % nm if why is None else '%s: %s' % (nm, why))
 
 
 @only(PERF)
